@@ -8,7 +8,7 @@ INVARIANT TypeOKF
 INVARIANT CollisionFree
 INVARIANT ObsOK
 INVARIANT FsOK
-PROPERTY Refines
+PROPERTY RefinesFast
 PROPERTY ContractF
 VIEW GraphView
 CHECK_DEADLOCK FALSE
